@@ -12,14 +12,14 @@ import (
 func init() {
 	register(&PropRules{
 		ID:      "C05",
-		Explain: "The saslauthd server fails closed — structural part, on every CFG path of sasl.(*Server).handleConnection and the codec: (C05.1) the callback is invoked at most once, outside any loop, only under req.Decode(conn)==nil and with the four decoded fields; (C05.2) exactly one resp.Encode(conn) on every path, on the connection itself, and conn.Close is deferred before any exit; (C05.3) at the Encode call resp.Result is the constant false, or the callback's first result under callback err==nil; (C05.4) every reply is decodable: the part handed to the length-prefix encoder by Response.Encode is bounded by the limit the decoders enforce (MaxRequestLength); (C05.5) vocabulary agreement: Encode writes \"OK\"/\"NO\" [+ \" \" + message], Decode maps exactly \"OK\"→true, \"NO\"→false, anything else → error, and takes the message from index 3; (C05.6) connection ownership: Run starts one goroutine per accepted connection with that connection, the handler writes no shared state, Server fields are written only by the constructors; (C05.7) the decoder's unproven bounds checks are exactly the hand-discharged ones. The C reader's side of C05.5 is decided by C20/C13.4.",
+		Explain: "The saslauthd server fails closed — structural part, on every CFG path of sasl.(*Server).handleConnection and the codec: (C05.1) the callback is invoked at most once, outside any loop, only under req.Decode(conn)==nil and with the four decoded fields; (C05.2) exactly one resp.Encode(conn) on every path, on the connection itself, and conn.Close is deferred before any exit; (C05.3) at the Encode call resp.Result is the constant false, or the callback's first result under callback err==nil; (C05.4) every reply is decodable: the part handed to the length-prefix encoder by Response.Encode is bounded by the limit the decoders enforce (MaxRequestLength); (C05.5) vocabulary agreement: Encode writes \"OK\"/\"NO\" [+ \" \" + message], Decode maps exactly \"OK\"→true, \"NO\"→false, anything else → error, and takes the message from index 3; (C05.6) connection ownership: Run starts one goroutine per accepted connection with that connection, the handler writes no shared state, Server fields are written only by the constructors; (C05.7) the decoder's unproven bounds checks are exactly the hand-discharged ones. The C reader's side of C05.5 is decided by C20/C13.4. Round 3: the reply is not written under a connection deadline armed before req.Decode or the callback ran (C05.2); the decode loop reaches Scan() only with the part counter below len(parts) (C13.1 shared).",
 		Undec:   []string{"fragmentation and timing behaviour of bufio.Scanner and the socket (run-time)", "actual concurrent executions", "the compiled PAM module's run-time behaviour (its source is C20)"},
 		Run:     runC05,
 		Floors:  map[string]int{"C05.1": 1, "C05.2": 2, "C05.3": 1, "C05.4": 1, "C05.5": 2, "C05.6": 2},
 	})
 	register(&PropRules{
 		ID:      "C13",
-		Explain: "saslauthd wire codec — structural part: (C13.1) framing shape: the encoder writes, per part, a buffer of 2+len(part) bytes whose first two bytes are BigEndian.PutUint16(len(part)) of the same part followed by its bytes, parts over 65535 are refused; the split function reads the length with BigEndian.Uint16(data[0:2]), refuses lengths over MaxRequestLength before returning any token, returns a token only when it is data[0:strlen+2] with advance == strlen+2 and enough data is present, and answers 'need more data' (0,nil,nil) only when not at EOF (or at EOF with no data left); the decoder strips exactly the 2 length bytes; (C13.2) per-field limits: each of the four request fields is refused by the encoder exactly when len > MaxRequestLength (= 256, pinned), placed at its own index, and the decoder refuses empty login/password; (C13.3) response grammar agreement (= C05.5) and the bounded reply (= C05.4); (C13.4) Go ↔ C agreement is decided by the C-side engine (C20: field order, htons, 256-byte clipping).",
+		Explain: "saslauthd wire codec — structural part: (C13.1) framing shape: the encoder writes, per part, a buffer of 2+len(part) bytes whose first two bytes are BigEndian.PutUint16(len(part)) of the same part followed by its bytes, parts over 65535 are refused; the split function reads the length with BigEndian.Uint16(data[0:2]), refuses lengths over MaxRequestLength before returning any token, returns a token only when it is data[0:strlen+2] with advance == strlen+2 and enough data is present, and answers 'need more data' (0,nil,nil) only when not at EOF (or at EOF with no data left); the decoder strips exactly the 2 length bytes; (C13.2) per-field limits: each of the four request fields is refused by the encoder exactly when len > MaxRequestLength (= 256, pinned), placed at its own index, and the decoder refuses empty login/password; (C13.3) response grammar agreement (= C05.5) and the bounded reply (= C05.4); (C13.4) Go ↔ C agreement is decided by the C-side engine (C20: field order, htons, 256-byte clipping). Round 3: Scan() only while a part is missing (C13.1); every decoding entry point (Decode, Unmarshal) delegates to Decode over the whole input or is itself subject to the decode rules (C13.2/C13.3).",
 		Undec:   []string{"round-trip equality for every byte string (value level)", "re-encode == consumed bytes", "independence from read fragmentation (a property of bufio.Scanner executions)"},
 		Run:     runC13,
 		Floors:  map[string]int{"C13.1": 3, "C13.2": 2},
